@@ -38,6 +38,42 @@ class WritesFrame:
             return self.fresh(v.body) and self.fresh(v.orelse)
         return False
 
+    def reaching_fresh(self, fn, store, name):
+        """Flow-sensitive refinement: in the statement list that contains `store`, the nearest earlier statement that binds `name` is an assignment of a
+        fresh object, or an if / else whose every branch ends up binding it fresh; no statement in between re-binds it otherwise."""
+        import ast
+
+        def binds_fresh(st):
+            """True: st certainly binds name to a fresh object; False: st (possibly) binds it to something else; None: st does not bind it"""
+            if isinstance(st, ast.Assign) and any(isinstance(t, ast.Name) and t.id == name for t in st.targets):
+                return self.fresh(st.value)
+            if isinstance(st, ast.If):
+                res = []
+                for blk in (st.body, st.orelse):
+                    last = None
+                    for x in blk:
+                        b = binds_fresh(x)
+                        if b is not None:
+                            last = b
+                    res.append(last)
+                if all(r is None for r in res):
+                    return None
+                return all(r is True for r in res)
+            if any(isinstance(x, ast.Name) and x.id == name and isinstance(x.ctx, ast.Store) for x in ast.walk(st)):
+                return False
+            return None
+
+        for node in ast.walk(fn):
+            for field in ("body", "orelse", "finalbody"):
+                blk = getattr(node, field, None)
+                if isinstance(blk, list) and store in blk:
+                    for prev in reversed(blk[:blk.index(store)]):
+                        b = binds_fresh(prev)
+                        if b is not None:
+                            return b
+                    return False
+        return False
+
     def scan(self):
         import ast
         import os
@@ -91,8 +127,14 @@ class WritesFrame:
                                 continue  # a documented effect, e.g. scf.energies.<field> = value (a re-binding of a field, not a change of an array)
                         if isinstance(t, ast.Name) and all(b is not None and isinstance(b, ast.Constant) for b in binds.get(r.id, [None])):
                             continue  # a number: `n += 1` re-binds
+                        if self.reaching_fresh(fn, n, r.id):
+                            continue  # the binding that reaches this store (same block, straight line / if-else with a fresh binding on every branch) is fresh
                         if r.id in params:
                             bad.append(f"{module}.{fn.name}: in-place store into the parameter `{r.id}` (line {n.lineno}: {ast.unparse(t)} {op} ...)")
+                        elif binds.get(r.id) and any(b is not None and self.fresh(b) for b in binds[r.id]) and all(
+                                b is not None and (self.fresh(b) or (isinstance(b, ast.Call) and isinstance(b.func, ast.Attribute) and isinstance(b.func.value, ast.Name) and b.func.value.id == r.id))
+                                for b in binds[r.id]):
+                            continue  # `x = fresh; x = x.reshape(...)`: a view of the function's own fresh object
                         elif not binds.get(r.id) or not all(b is not None and self.fresh(b) for b in binds[r.id]):
                             src = next((ast.unparse(b) for b in binds.get(r.id, []) if b is not None and not self.fresh(b)), "a loop element / unknown binding")
                             bad.append(f"{module}.{fn.name}: in-place store through `{r.id}`, which is bound to `{src[:60]}` - possibly a view of the caller's data (line {n.lineno})")
